@@ -321,8 +321,13 @@ func dataAndDuration(t *testing.T, r *run.R) {
 	})
 
 	var durs []durCase
-	for _, d := range []time.Duration{30 * time.Second, 2 * time.Minute} {
-		for _, gap := range []time.Duration{7 * time.Second, 10 * time.Second, time.Second} {
+	durations, gaps := []time.Duration{30 * time.Second, 2 * time.Minute}, []time.Duration{7 * time.Second, 10 * time.Second, time.Second}
+	if !r.Quick() {
+		durations = append(durations, time.Second, 59*time.Second, time.Minute, 10*time.Minute)
+		gaps = append(gaps, 3*time.Second, 13*time.Second, 30*time.Second, 500*time.Millisecond)
+	}
+	for _, d := range durations {
+		for _, gap := range gaps {
 			for _, talk := range [][3]bool{{true, true, true}, {true, false, true}, {false, true, true}, {true, true, false}} {
 				durs = append(durs, durCase{Dur: d, Gap: gap, SrcTalk: talk[0], DstTalk: talk[1], DstRead: talk[2], Limited: true})
 			}
